@@ -45,6 +45,10 @@ CLAIMED = {
    technique="abstract interpretation of strip_pgp_signature over symbolic clear-signed messages (literal marker lines, opaque other lines), all truncation points and trailing additions",
    text="The function body is interpreted on every combination of 0..2 armour headers, 7 payload shapes (0..3 lines incl. empty lines) and 1..2 signature lines, with and without final newline; every cut after a line must yield the error of the phase that was cut, trailing junk JunkAfterPgpSignature, unsigned text is returned unchanged; the Ok result must be exactly the payload lines each followed by LF and the concatenated signature lines (438 symbolic messages).",
    note="Line atoms are non-empty, newline-free and differ from the markers (no dash-escaping); shapes are bounded - the per-phase loops are uniform; str::lines semantics as modelled in rules/symstr.py."),
+ "C17": dict(level="other", ref="4/C17",
+   technique="abstract interpretation: glob translation table over every character class, escape pair and mixed patterns; both back-ends' lookup functions on all paragraph/pattern lists of length <= 3 with stubbed match results; symbolic Format gate",
+   text="glob_to_regex's output is compared with the DEP-5 translation for all 131 single characters, the three escapes and mixed patterns (anchors included); find_files of both back-ends must return the last matching paragraph for every match assignment on lists up to 3; matches = any over the patterns; lossless files() and lossy deserialize_file_list tokenise the same whitespace-separated list; find_license_for_file returns the own licence when it carries text and otherwise the by-name lookup of exactly that name; find_license_by_name returns the first stand-alone paragraph of the name; the three text entry points return the not-machine-readable error for inputs not starting with 'Format:'.",
+   note="Regex matching semantics are trusted to the regex crate ('.' vs newline); regex::escape is modelled from its documented meta-character set; lists are bounded to length 3 (uniform iterator chains)."),
 }
 NA_REASON = "check not built yet (construction in progress; see DESIGN.md section 9 build order)"
 
